@@ -426,3 +426,93 @@ def gen_tcp(seed, n, types=None):
             c.cmd([b"exists", K, O])
         cases.append(c)
     return cases
+
+
+# ---------------------------------------------------------------- cross-database slice
+# the same key name in two or three databases, with different value types and different / no
+# deadlines: whatever happens to the deadline of K in one database (every way of attach_ways)
+# must leave K in the other databases alone -- value, deadline, visibility around each deadline,
+# and after the expiry timers have fired.
+READ_OF = {
+    "string": [b"get", K], "list": [b"lrange", K, b"0", b"-1"], "hash": [b"hgetall", K],
+    "set": [b"smembers", K], "zset": [b"zrange", K, b"0", b"-1", b"withscores"], "stream": [b"xrange", K, b"-", b"+"],
+}
+XDB_QUICK_WAYS = ["expire_none_preNone", "expire_none_pre4", "expire_gt_pre1", "expire_persist", "setex", "set_ex",
+                  "set_px_1500", "set_exat", "set_keepttl", "set_plain_drops", "mset_drops", "rename_onto", "rename_away_back",
+                  "del_recreate", "sunionstore_drops", "lpop_keeps", "expire_0", "expire_neg"]
+
+
+def xdb_case(name, ta, tv, way, vttl, adb, cand, off_ms, phase):
+    """attacker database adb in {0,1}; victim = the other of {0,1}; database 2 holds K as a string with
+    deadline +3; connection c works in database c"""
+    wname, pre, cmds, _ = way
+    vdb = 1 - adb
+    c = TCase(name, 3)
+    c.align(phase)
+    c.cmd([b"select", b"1"], conn=1)
+    c.cmd([b"select", b"2"], conn=2)
+    for cmd in TYPES[tv](K):
+        c.cmd(cmd, conn=vdb)
+    if vttl is not None:
+        c.cmd([b"expire", K, str(vttl).encode()], conn=vdb)
+    c.cmd([b"set", K, b"third", b"EX", b"3"], conn=2)
+    for cmd in TYPES[ta](K):
+        c.cmd(cmd, conn=adb)
+    c.cmd([b"set", O, b"ov"], conn=adb)
+    if pre is not None:
+        c.cmd([b"expire", K, str(pre).encode()], conn=adb)
+    for cmd in cmds:
+        c.cmd(cmd, conn=adb)
+    c.dump()
+
+    def probes(first_sleep):
+        sl = first_sleep
+        for conn, typ in ((vdb, tv), (2, "string"), (adb, ta)):
+            for cmd in ([b"ttl", K], READ_OF[typ], [b"type", K], [b"exists", K]):
+                c.cmd(cmd, conn=conn, sleep_ms=sl)
+                sl = 0
+        c.dump()
+    probes(max(cand * 1000 - phase + off_ms, 0))
+    probes(3000)      # after every expiry timer that could have been armed for the probed deadline
+    c.cmd([b"keys", b"*"], conn=vdb)
+    c.cmd([b"keys", b"*"], conn=adb)
+    c.dump()
+    return c
+
+
+def gen_crossdb(seed, tier, types=None):
+    r = random.Random(seed * 48271 + 3)
+    types = types or DEFAULT_TYPES
+    cases = []
+    i = 0
+    if tier == "quick":
+        pairs = [("string", "string"), ("string", "list"), ("list", "string"), ("hash", "zset"), ("set", "string"), ("string", "stream")]
+        pairs = [p for p in pairs if p[0] in types and p[1] in types]
+        for ta, tv in pairs:
+            ways = {w[0]: w for w in attach_ways(ta)}
+            for wn in XDB_QUICK_WAYS:
+                if wn not in ways:
+                    continue
+                way = ways[wn]
+                vttl = r.choice([None, 2, 5])
+                cands = sorted(set(way[3] + ([vttl] if vttl else [])))
+                cand = r.choice(cands)
+                for oname, off in r.sample(OFFSETS, 2):
+                    if cand * 1000 + off < 0:
+                        continue
+                    i += 1
+                    cases.append(xdb_case("c06x_%s_%s_%s_v%s_%d_%s_%d" % (ta, tv, wn, vttl, cand, oname, i), ta, tv, way, vttl,
+                                          r.choice([0, 1]), cand, off, r.choice([0, 500, 999])))
+        return cases
+    for ta in types:
+        for tv in types:
+            for way in attach_ways(ta):
+                for vttl in (None, 2, 5):
+                    for cand in sorted(set(way[3] + ([vttl] if vttl else []))):
+                        for oname, off in OFFSETS:
+                            if cand * 1000 + off < 0:
+                                continue
+                            i += 1
+                            cases.append(xdb_case("c06x_%s_%s_%s_v%s_%d_%s_%d" % (ta, tv, way[0], vttl, cand, oname, i), ta, tv, way,
+                                                  vttl, i % 2, cand, off, r.choice([0, 1, 500, 999])))
+    return cases
